@@ -94,6 +94,36 @@ CLAIMED = {
              "pinned tree was repaired by a fix: commit; the extracted machine follows the repaired code.",
         technique="Lean 4 proofs over source-extracted cache machine and data tables (decide +kernel) + history-based differential check",
         ref="7/C20"),
+    "C01": dict(
+        text="Character-level Lean model of all parsers and printers (PyStr/Num/Parse: find/rfind/slicing as in the code, Python number syntax, repr of "
+             "floats) tied to the code by a correspondence check on every accepted string (parse dumps field by field, both printed forms, the reading "
+             "of the canonical string); Lean theorems for the erasure half (the extension-free form of descriptor / token / object / mixture / molecule "
+             "is a function of the erased structure only). The fixed-point, same-object, layout-independence, no-bar, reparse and same-seed-same-molecule "
+             "clauses are decided on the implementation by the round-trip oracle over all archetypes x 3 layouts, systems and the documented strings.",
+        note="Partial: the fixed-point / same-object clauses are not theorems on characters (fallback of DESIGN.md 7/C01): they are decided by oracle + "
+             "correspondence; masses printed after binary64 arithmetic are compared numerically (1e-9). Two defects of the pinned tree were repaired (fix: commits).",
+        technique="Lean 4 model + erasure theorems; differential correspondence on characters; round-trip oracle",
+        ref="7/C01"),
+    "C02": dict(
+        text="Lean 4: C02_binding_simulation (the atom_to_bond stack machine of the binding pass simulates the SMILES reading in which a descriptor is an atom, "
+             "for all lexeme sequences, any nesting depth; pushPop_eq_steps ties the model's _push_pop_atom_branch to that machine), C02_weight_law (no weight = 1, "
+             "list total = sum). The character-level model of token.py / bond.py / stochastic.py / molecule.py / system.py is compared with the code field by "
+             "field on strings printed from ASTs by an independent printer; the oracle compares every parsed field with what the AST denotes and with RDKit's own "
+             "reading of the token in which descriptors are dummy atoms.",
+        note="The scanner and the find/rfind splitting are covered by the correspondence, not by theorems. Tokens with an explicit [H] inside a multi-atom token "
+             "are outside the domain (RDKit renumbers). Three defects of the pinned tree were repaired (fix: commits).",
+        technique="Lean 4 simulation proof (stack machine vs SMILES semantics) + character-level differential check + RDKit dummy-atom oracle",
+        ref="7/C02"),
+    "C15": dict(
+        text="Lean 4: one theorem per validation branch of the model parsers (unbalanced branches, ')' without '(', unknown descriptor symbol, unknown "
+             "distribution, percentage range, negative mass, transition-list length) and per generation guard (not generable, missing prefix, prefix mismatch, "
+             "prefix open count, negative weight); C15_system_loop_terminates proves that the (repaired) System loop never runs out of fuel, with the two formerly "
+             "diverging inputs decided by the kernel. Correspondence: accept / reject / divergence of model and code on every breaking operator x valid instance "
+             "and on byte-level mutations; oracle: the operator's expected rejection, a wall-clock bound per parse, the misuse calls.",
+        note="Termination of the molecule loop is covered by the correspondence (model never reports diverge unless the code does), only the system loop is a theorem. "
+             "Two defects of the pinned tree (accepted ')(' , non-terminating System) were repaired by fix: commits.",
+        technique="Lean 4 proofs of validation branches and loop termination + differential accept/reject check on a malformed stream",
+        ref="7/C15"),
 }
 
 NOT_YET = {}
